@@ -98,11 +98,9 @@ EPOCH = _dt.datetime(1900, 1, 1, tzinfo=_dt.timezone.utc)
 def dt_to_ms(v) -> float:
     """{'$dt': [...], 'tz': minutes|None} -> milliseconds (float, un-rounded) since 1900-01-01 UTC.
     A naive date-time is local time of the process (TZ is pinned by the runner)."""
-    y, mo, d, h, mi, s, us = v['$dt']
-    tz = v.get('tz')
-    tzinfo = None if tz is None else _dt.timezone(_dt.timedelta(minutes=tz))
-    t = _dt.datetime(y, mo, d, h, mi, s, us, tzinfo=tzinfo)
-    if tzinfo is None:
+    from .spec import make_datetime
+    t = make_datetime(v)        # (with its fold: the second occurrence of a repeated wall-clock time is another instant)
+    if t.tzinfo is None:
         t = t.astimezone()      # local zone of the process
     delta = t - EPOCH
     return (delta.days * 86400 + delta.seconds) * 1000 + delta.microseconds / 1000.0
